@@ -57,10 +57,11 @@ ASYNC_VARIANTS = ("coro", "agen")
 #  Sa/Aa enter/exit are aliases of methods with other names (`__exit__ = close`)
 #  Sd/Ad enter/exit wrapped by a decorator (functools.wraps; the running frame is `wrapper(self, ...)`)
 #  Sm/Am enter/exit inherited from mixin base classes
+#  Ap    __aenter__ / __aexit__ are plain `def`s returning the awaitable (not coroutine functions)
 #  Sv/Av wrapped by a decorator whose wrapper takes (*args, **kwargs): obj of the exiting manager
 #        comes from the wrapper frame's varargs (fixed in /repo b0dc696; a recurrence is a violation)
 SYNC_KINDS = ("S", "Sw", "Sr", "Sq", "G", "Gw", "G2", "Sa", "Sd", "Sm", "Sv")
-ASYNC_KINDS = ("A", "Aw", "Ae", "Ax", "A0", "Ar", "AG", "AGw", "AG2", "Aa", "Ad", "Am", "Av")
+ASYNC_KINDS = ("A", "Aw", "Ae", "Ax", "A0", "Ar", "AG", "AGw", "AG2", "Aa", "Ad", "Am", "Av", "Ap")
 # none / local name / attribute / subscript / name, expression over two lines / name, suspension inside the expression
 TARGETS = ("n", "v", "a", "s", "m", "y")
 
@@ -126,7 +127,7 @@ def _gen_items(rng, variant, is_async):
     items = []
     for _ in range(n):
         if is_async:
-            kind = rng.choice(("A", "A", "A", "Aw", "Ae", "Ax", "A0", "Ar", "AG", "AGw", "AG2", "Aa", "Ad", "Am", "Av"))
+            kind = rng.choice(("A", "A", "A", "Aw", "Ae", "Ax", "A0", "Ar", "AG", "AGw", "AG2", "Aa", "Ad", "Am", "Av", "Ap"))
         else:
             kind = rng.choice(("S", "S", "S", "Sw", "Sr", "Sq", "G", "Gw", "G2", "Sa", "Sd", "Sm", "Sv"))
         items.append([kind, rng.choice(("n", "n", "n", "v", "v", "v", "v", "a", "s", "m", "y"))])
@@ -283,7 +284,7 @@ def _matrix_items(variant):
     if variant in ASYNC_VARIANTS:
         its += [[["A", "v"]], [["Aw", "n"]], [["AG", "v"]], [["A", "n"], ["A0", "v"]],
                 [["Ax", "s"]], [["AG2", "n"]], [["AGw", "v"], ["Ae", "n"]], [["A", "n"], ["A", "y"]],
-                [["Aa", "v"], ["Ad", "n"]], [["Am", "s"], ["Av", "n"]]]
+                [["Aa", "v"], ["Ad", "n"]], [["Am", "s"], ["Av", "n"]], [["Ap", "v"], ["A", "n"]]]
     return its
 
 
@@ -483,7 +484,7 @@ class _Emit:
             for item_i, (kind, tgt) in enumerate(s[2]):
                 if not is_async and kind in ASYNC_KINDS:
                     kind = {"A": "S", "Aw": "Sw", "Ae": "S", "Ax": "S", "A0": "S", "Ar": "Sr",
-                            "AG": "G", "AGw": "Gw", "AG2": "G2", "Aa": "Sa", "Ad": "Sd", "Am": "Sm",
+                            "AG": "G", "AGw": "Gw", "AG2": "G2", "Aa": "Sa", "Ad": "Sd", "Am": "Sm", "Ap": "S",
                             "Av": "Sv"}[kind]
                 self.site += 1
                 item_line = stmt_line + sum(p.count("\n") for p in parts)
@@ -900,7 +901,7 @@ class AsyncMgr(object):
         R.t_begin(self.owner, self, True)
         try:
             R.hook("enter", self)
-            if self.kind in ("A", "Aw", "Ae", "Ar", "Aa", "Ad", "Am", "Av"):
+            if self.kind in ("A", "Aw", "Ae", "Ar", "Aa", "Ad", "Am", "Av", "Ap"):
                 R.r(await trap(-self.site))
                 R.hook("enter2", self)
             if self.kind == "Ar" and R.c():
@@ -918,7 +919,7 @@ class AsyncMgr(object):
         R.t_phase(self.owner, self, "exiting")
         try:
             R.hook("exit", self)
-            if self.kind in ("A", "Aw", "Ax", "Ar", "Aa", "Ad", "Am", "Av"):
+            if self.kind in ("A", "Aw", "Ax", "Ar", "Aa", "Ad", "Am", "Av", "Ap"):
                 R.r(await trap(-1000 - self.site))
                 R.hook("exit2", self)
         finally:
@@ -1012,6 +1013,17 @@ class AsyncVarDecorated(AsyncMgr):
     __aexit__ = _adeco_var(AsyncMgr.__aexit__)
 
 
+class AsyncPlainDef(AsyncMgr):
+    """__aenter__ / __aexit__ are plain functions that RETURN an awaitable (a delegating wrapper): legal, and
+    still an asynchronous context manager although inspect.iscoroutinefunction says no"""
+
+    def __aenter__(self):
+        return AsyncMgr.__aenter__(self)
+
+    def __aexit__(self, et, ev, tb):
+        return AsyncMgr.__aexit__(self, et, ev, tb)
+
+
 class _MixAsyncEnter(object):
     async def __aenter__(self):
         return await AsyncMgr.__aenter__(self)
@@ -1027,7 +1039,7 @@ class AsyncMixed(_MixAsyncEnter, _MixAsyncExit, AsyncMgr):
 
 
 FLAVOURS = {"Sa": SyncAliased, "Sd": SyncDecorated, "Sv": SyncVarDecorated, "Sm": SyncMixed,
-            "Aa": AsyncAliased, "Ad": AsyncDecorated, "Av": AsyncVarDecorated, "Am": AsyncMixed}
+            "Aa": AsyncAliased, "Ad": AsyncDecorated, "Av": AsyncVarDecorated, "Am": AsyncMixed, "Ap": AsyncPlainDef}
 
 
 class _Box(object):
